@@ -56,8 +56,28 @@ def _run_task(job):
     return res
 
 
+def _worker(wid, inq, outq, maxtasks):
+    done = 0
+    while True:
+        item = inq.get()
+        if item is None:
+            break
+        k, job = item
+        outq.put(('start', wid, k, None))
+        res = _run_task(job)
+        done += 1
+        outq.put(('last' if done >= maxtasks else 'done', wid, k, res))
+        if done >= maxtasks:
+            break
+
+
+GRACE_S = 90
+
+
 def run_tasks(jobs, procs=None, progress=None):
-    """jobs: list of (function, args tuple, time limit s). Functions must be module-level (picklable)."""
+    """jobs: list of (function, args tuple, time limit s). Functions must be module-level (picklable).  Every job runs in a worker process; a
+    worker that overruns its job's limit by more than GRACE_S (a solver call that does not come back: the in-process alarm cannot interrupt
+    native code) is killed and the job reported as 'timeout' - inconclusive, never a verdict."""
     procs = procs or int(os.environ.get('VERIF_PROCS', '16'))
     out = []
     if procs <= 1 or len(jobs) <= 1:
@@ -65,11 +85,81 @@ def run_tasks(jobs, procs=None, progress=None):
             out.append(_run_task(j))
         return out
     ctx = mp.get_context('fork')
-    with ctx.Pool(procs, maxtasksperchild=8) as pool:
-        for k, r in enumerate(pool.imap_unordered(_run_task, jobs, chunksize=1)):
-            out.append(r)
-            if progress:
-                progress(k + 1, len(jobs), r)
+    outq = ctx.Queue()
+    workers = {}            # wid -> dict(proc, inq, job index or None, start)
+    nextwid = [0]
+    pending = list(range(len(jobs)))[::-1]
+
+    def spawn():
+        wid = nextwid[0]; nextwid[0] += 1
+        inq = ctx.Queue()
+        pr = ctx.Process(target=_worker, args=(wid, inq, outq, 8), daemon=True)
+        pr.start()
+        workers[wid] = dict(proc=pr, inq=inq, k=None, start=None)
+        return wid
+
+    def feed(wid):
+        w = workers[wid]
+        if pending:
+            k = pending.pop()
+            w['k'], w['start'] = k, time.time()
+            w['inq'].put((k, jobs[k]))
+        else:
+            w['k'] = None
+            w['inq'].put(None)
+
+    def record(k, r):
+        out.append(r)
+        if progress:
+            progress(len(out), len(jobs), r)
+    for _ in range(min(procs, len(jobs))):
+        feed(spawn())
+    import queue as _q
+    while len(out) < len(jobs):
+        try:
+            kind, wid, k, res = outq.get(timeout=2)
+        except _q.Empty:
+            kind = None
+        if kind in ('done', 'last') and wid in workers and workers[wid]['k'] == k:
+            record(k, res)
+            workers[wid]['k'] = None
+            if kind == 'done':
+                feed(wid)
+            else:                       # the worker retires after this task (bounded life: memory of the solver contexts)
+                w = workers.pop(wid)
+                w['proc'].join(timeout=5)
+                if pending:
+                    feed(spawn())
+        now = time.time()
+        for wid in list(workers):
+            w = workers[wid]
+            if w['k'] is None:
+                continue
+            limit = jobs[w['k']][2]
+            dead = not w['proc'].is_alive()
+            if dead or now - w['start'] > limit + GRACE_S:
+                k = w['k']
+                try:
+                    w['proc'].kill()
+                except Exception:       # noqa
+                    pass
+                w['proc'].join(timeout=5)
+                workers.pop(wid)
+                fn, args, lim = jobs[k]
+                record(k, dict(unit=str(args[0]) if args else fn.__name__, status='timeout' if not dead else 'harness-error',
+                               detail=('worker killed: job exceeded %ds + %ds grace (a native solver call did not return)' % (lim, GRACE_S)) if not dead else 'worker process died',
+                               wall_s=round(now - w['start'], 2)))
+                if pending:
+                    feed(spawn())
+    for w in workers.values():
+        try:
+            w['inq'].put(None)
+        except Exception:               # noqa
+            pass
+    for w in workers.values():
+        w['proc'].join(timeout=5)
+        if w['proc'].is_alive():
+            w['proc'].kill()
     return out
 
 
